@@ -128,10 +128,22 @@ func (s *ExpressionVisitor) EnterOC_NotExpression(ctx *parser.OC_NotExpressionCo
 }
 
 func (s *ExpressionVisitor) ExitOC_NotExpression(ctx *parser.OC_NotExpressionContext) {
-	if len(ctx.AllNOT()) > 0 {
+	if numNegations := len(ctx.AllNOT()); numNegations > 0 {
 		visitor := s.ctx.Exit().(*NegationVisitor)
-		s.Expression = visitor.Negation
+		s.Expression = nestNegations(visitor.Negation, numNegations)
 	}
+}
+
+// nestNegations wraps the negation once more for every additional NOT of a `NOT NOT ... x` chain so that each NOT of the
+// query text is represented in the model.
+func nestNegations(negation *cypher.Negation, numNegations int) *cypher.Negation {
+	for ; numNegations > 1; numNegations-- {
+		negation = &cypher.Negation{
+			Expression: negation,
+		}
+	}
+
+	return negation
 }
 
 func (s *ExpressionVisitor) EnterOC_StringListNullPredicateExpression(ctx *parser.OC_StringListNullPredicateExpressionContext) {
